@@ -12,4 +12,6 @@ def withinBound (cur bound : Rat) : Bool := (decide (cur ≤ bound))
 
 def nextBudget (cur step : Rat) : Rat := (cur + step)
 
+def nextBudgetAll (cur step : Rat) : Rat := (cur + step)
+
 end Gen.C09
